@@ -214,11 +214,11 @@ def alphabets(ctx):
         Gs = [0, 1, 3, 1000, U32]
         sw = [(0, 0, 1), (1, 0, 1), (0, 1, 0), (1, 1, 1)]
     else:
-        Vs = [0, 1, 2, 100, 1000, 32766, 32767]
-        As = [0, 1, 2, 100, 1000, 2000, 2001, 32767, 32768, 40000, 65535,
-              65536, (1 << 31) - 1, 1 << 31, U32]
-        Gs = [0, 1, 2, 3, 10, 1000, 65536, (1 << 31) - 1, 1 << 31, U32]
-        sw = [(lo, hi, en) for lo in (0, 1) for hi in (0, 1) for en in (0, 1)]
+        Vs = [0, 1, 100, 1000, 32766, 32767]
+        As = [0, 1, 100, 1000, 2000, 32767, 32768, 40000, 65536,
+              (1 << 31) - 1, U32]
+        Gs = [0, 1, 2, 3, 1000, 65536, U32]
+        sw = [(0, 0, 1), (1, 0, 1), (0, 1, 0), (1, 1, 1), (0, 0, 0)]
     Vs.append(rnd.randrange(3, 32767))
     As.append(rnd.randrange(3, 1 << 17))
     Gs.append(rnd.randrange(4, 1 << 16))
@@ -265,7 +265,7 @@ def decompositions(D, lo, hi, quick):
         if lo <= P <= hi:
             out.append((T, P))
     out = dedupe(out)
-    return out[:2] if quick else out[:4]
+    return out[:2] if quick else out[:3]
 
 
 def in_precondition(G, T, P, A, V, W):
@@ -400,7 +400,13 @@ def run(ctx):
     names = list(Rig.CONFIGS)[:2] if ctx.quick else list(Rig.CONFIGS)
     kevery = 53
     items = [(name, V, A, G, sw, ctx.quick, kevery)
-             for name in names for V in Vs for A in As for G in Gs]
+             for name in names[:2] for V in Vs for A in As for G in Gs]
+    if not ctx.quick:
+        # the two remaining addressing variants get the quick alphabets
+        qctx = core.Ctx(ctx.prop, "quick", ctx.seed, ctx.workers)
+        qV, qA, qG, qsw = alphabets(qctx)
+        items += [(name, V, A, G, qsw, True, kevery)
+                  for name in names[2:] for V in qV for A in qA for G in qG]
     res = core.pmap(ctx, work, items, chunk=2)
     res.cov["states"] = len(res.nontrivial)
     res.cov["transitions"] = res.cov.get("evaluations", 0)
